@@ -256,7 +256,7 @@ class Sim:
                 task.token = None
                 got = coro.throw(exc)
             elif token is not None:
-                if self.interrupt_den and self.faults.draw(self.interrupt_den) == self.interrupt_den - 1:
+                if self.interrupt_den and token.interrupts < 2 and self.faults.draw(self.interrupt_den) == self.interrupt_den - 1:
                     self.n_interrupts += 1
                     intr = Interrupt(token.serial)
                     token.expect_interrupt = intr
